@@ -44,8 +44,10 @@ type Op struct {
 	Other   bool   `json:"other,omitempty"` // use the second issuer host (only when Case.Hosts)
 	Tok     Ref    `json:"tok"`
 	Actor   *Ref   `json:"actor,omitempty"`
-	Caller  string `json:"caller,omitempty"` // owner | ca | cb | cp | ck | svc
-	Cred    string `json:"cred,omitempty"`   // right | wrong | idonly | madeup-basic | madeup-post (a made-up secret, also for clients that have none: public, private_key_jwt)
+	Caller  string `json:"caller,omitempty"` // owner | ca | cb | cp | ck | ck2 | svc
+	Cred    string `json:"cred,omitempty"`   // right | wrong | idonly | madeup-basic | madeup-post (a made-up secret, also for clients that have none: public, private_key_jwt) | imp
+	By      string `json:"by,omitempty"`     // cred "imp": the real sender, a private_key_jwt client (ck | ck2) other than Caller; the assertion names Caller as iss and sub but carries the sender's own kid and signature
+	Warm    bool   `json:"warm,omitempty"`   // cred "imp": immediately before, the real sender makes a legitimate introspection request as itself (same token)
 	Hint    string `json:"hint,omitempty"`
 	Fault   string `json:"fault,omitempty"` // "" | error | partial  (storage failure inside userinfo / introspection)
 	Form    bool   `json:"form,omitempty"`  // userinfo: token in the POST body
@@ -66,12 +68,13 @@ type Case struct {
 	Extras     bool     `json:"extras,omitempty"`
 	TELax      bool     `json:"te_lax,omitempty"`      // storage does NOT check liveness of access-token subject/actor in ValidateTokenExchangeRequest (grey)
 	RefreshIDs bool     `json:"refresh_ids,omitempty"` // storage gives refresh tokens an id that differs from the token string
+	K2Kid      string   `json:"k2_kid,omitempty"`      // key id under which the second private_key_jwt client (ck2) registered its key; "" = "kk", the same kid the first one (ck) uses for a different key
 	Ops        []Op     `json:"ops"`
 	Sweep      bool     `json:"sweep,omitempty"` // after the history: present every token once more at userinfo, introspection and exchange
 }
 
 var (
-	clientIDs  = []string{"ca", "cb", "cp", "ck", "svc"}
+	clientIDs  = []string{"ca", "cb", "cp", "ck", "svc", "ck2"}
 	forgeKinds = []string{
 		"raw", "raw",
 		"o-flip", "o-flip", "o-flip-iv", "o-sibling", "o-sibling", "o-unknown-id", "o-wrong-sub", "o-reseal-samekey", "o-reseal-otherkey", "o-trunc", "o-extend",
@@ -103,7 +106,7 @@ func genRef(t *rapid.T, label string, forgedOutOf10 int) Ref {
 
 func genIssue(t *rapid.T, label string, hosts bool) Op {
 	o := Op{Kind: "issue"}
-	o.Client = rapid.SampledFrom([]string{"ca", "ca", "cb", "cb", "cp", "ck", "svc"}).Draw(t, label+"client")
+	o.Client = rapid.SampledFrom([]string{"ca", "ca", "cb", "cb", "cp", "ck", "svc", "ck2"}).Draw(t, label+"client")
 	o.User = rapid.SampledFrom(vkit.AllUserIDs).Draw(t, label+"user")
 	o.Scope = rapid.IntRange(0, len(scopeVariants)-1).Draw(t, label+"scope")
 	o.Offline = rapid.Bool().Draw(t, label+"offline")
@@ -142,21 +145,24 @@ func genOp(t *rapid.T, i int, hosts bool) Op {
 		o.Form = rapid.IntRange(0, 3).Draw(t, label+"form") == 0
 		o.Fault = rapid.SampledFrom([]string{"", "", "", "", "", "", "", "error", "partial"}).Draw(t, label+"fault")
 	case "introspect":
-		o.Caller = rapid.SampledFrom([]string{"owner", "owner", "owner", "ca", "cb", "cp", "ck", "svc"}).Draw(t, label+"caller")
-		o.Cred = rapid.SampledFrom([]string{"right", "right", "right", "right", "right", "right", "right", "wrong", "idonly", "madeup-basic", "madeup-post"}).Draw(t, label+"cred")
+		o.Caller = rapid.SampledFrom([]string{"owner", "owner", "owner", "ca", "cb", "cp", "ck", "svc", "ck2"}).Draw(t, label+"caller")
+		o.Cred = rapid.SampledFrom([]string{"right", "right", "right", "right", "right", "right", "right", "wrong", "idonly", "madeup-basic", "madeup-post", "imp", "imp"}).Draw(t, label+"cred")
 		o.Fault = rapid.SampledFrom([]string{"", "", "", "", "", "", "", "error", "partial"}).Draw(t, label+"fault")
+		genImp(t, label, &o)
 		o.Spoof = rapid.IntRange(0, 3).Draw(t, label+"spoof") == 0
 	case "revoke":
-		o.Caller = rapid.SampledFrom([]string{"owner", "owner", "owner", "owner", "ca", "cb", "cp", "ck", "svc"}).Draw(t, label+"caller")
-		o.Cred = rapid.SampledFrom([]string{"right", "right", "right", "right", "right", "wrong", "idonly", "madeup-basic", "madeup-post"}).Draw(t, label+"cred")
+		o.Caller = rapid.SampledFrom([]string{"owner", "owner", "owner", "owner", "ca", "cb", "cp", "ck", "svc", "ck2"}).Draw(t, label+"caller")
+		o.Cred = rapid.SampledFrom([]string{"right", "right", "right", "right", "right", "wrong", "idonly", "madeup-basic", "madeup-post", "imp"}).Draw(t, label+"cred")
 		o.Hint = rapid.SampledFrom([]string{"", "", "access_token", "refresh_token", "junk"}).Draw(t, label+"hint")
+		genImp(t, label, &o)
 		o.Spoof = rapid.IntRange(0, 2).Draw(t, label+"spoof") == 0
 	case "end_session":
 		o.ES = rapid.SampledFrom([]string{"hint", "hint", "hint+client", "clientonly", "exphint", "exphint", "exphint+client"}).Draw(t, label+"es")
 	case "exchange":
-		o.Caller = rapid.SampledFrom([]string{"ca", "ca", "ca", "cb", "cb", "ck", "owner"}).Draw(t, label+"caller")
-		o.Cred = rapid.SampledFrom([]string{"right", "right", "right", "right", "right", "right", "wrong", "idonly", "madeup-basic", "madeup-post"}).Draw(t, label+"cred")
+		o.Caller = rapid.SampledFrom([]string{"ca", "ca", "ca", "cb", "cb", "ck", "owner", "ck2"}).Draw(t, label+"caller")
+		o.Cred = rapid.SampledFrom([]string{"right", "right", "right", "right", "right", "right", "wrong", "idonly", "madeup-basic", "madeup-post", "imp"}).Draw(t, label+"cred")
 		o.Req = rapid.SampledFrom([]string{"", "", "access", "refresh"}).Draw(t, label+"req")
+		genImp(t, label, &o)
 		if rapid.IntRange(0, 2).Draw(t, label+"hasactor") == 0 {
 			a := genRef(t, label+"actor", 4)
 			o.Actor = &a
@@ -172,8 +178,21 @@ func genOp(t *rapid.T, i int, hosts bool) Op {
 	return o
 }
 
+// genImp draws the parameters of an impersonation attempt (cred "imp"): who really sends it and whether that sender
+// authenticates legitimately right before.
+func genImp(t *rapid.T, label string, o *Op) {
+	if o.Cred != "imp" {
+		return
+	}
+	o.By = rapid.SampledFrom([]string{"ck2", "ck2", "ck"}).Draw(t, label+"by")
+	o.Warm = rapid.IntRange(0, 3).Draw(t, label+"warm") != 0
+}
+
 func genCase(t *rapid.T) Case {
 	c := genCase0(t)
+	if rapid.IntRange(0, 3).Draw(t, "k2kid") == 0 {
+		c.K2Kid = "k2"
+	}
 	if rapid.Bool().Draw(t, "errstyled") {
 		c.ErrStyle = rapid.SampledFrom(vkit.ErrStyles).Draw(t, "errstyle")
 	}
@@ -192,7 +211,7 @@ func genCase0(t *rapid.T) Case {
 		}
 	}
 	c.CBPost = rapid.IntRange(0, 3).Draw(t, "cbpost") == 0
-	c.ExtraAud = rapid.SampledFrom([]string{"", "", "cb", "ck", "ca", "cp"}).Draw(t, "extraaud")
+	c.ExtraAud = rapid.SampledFrom([]string{"", "", "cb", "ck", "ca", "cp", "ck2"}).Draw(t, "extraaud")
 	c.Extras = rapid.IntRange(0, 2).Draw(t, "extras") == 0
 	c.TELax = rapid.IntRange(0, 9).Draw(t, "telax") == 0
 	c.RefreshIDs = rapid.IntRange(0, 2).Draw(t, "refreshids") == 0
@@ -657,9 +676,66 @@ func (e *env) cred(cl *vkit.ClientSpec, kind string, h int) vkit.Cred {
 	return vkit.RightCred(cl, iss)
 }
 
+// impSender: the private_key_jwt client that really sends an impersonation attempt naming cl (never cl itself).
+func (e *env) impSender(cl *vkit.ClientSpec, by string) *vkit.ClientSpec {
+	s := e.clients[by]
+	if s == nil || s.AuthMethod != "private_key_jwt" {
+		s = e.clients["ck2"]
+	}
+	if s.ID == cl.ID {
+		if s.ID == "ck2" {
+			return e.clients["ck"]
+		}
+		return e.clients["ck2"]
+	}
+	return s
+}
+
+func firstKid(cl *vkit.ClientSpec) string {
+	kid := ""
+	for k := range cl.Keys {
+		if kid == "" || k < kid {
+			kid = k
+		}
+	}
+	return kid
+}
+
+// credOp is the credential presentation of request o made in the name of cl. Cred "imp": a client assertion that names cl
+// as issuer and subject but is signed by another registered private_key_jwt client with that client's own key and kid -
+// well-formed in every other respect (audience, times). It proves who the sender is not.
+func (e *env) credOp(cl *vkit.ClientSpec, o Op, h int) vkit.Cred {
+	if o.Cred != "imp" {
+		return e.cred(cl, o.Cred, h)
+	}
+	s := e.impSender(cl, o.By)
+	kid := firstKid(s)
+	now := time.Now()
+	return vkit.Cred{Kind: "assertion", Assertion: vkit.AssertionWith(cl.ID, cl.ID, []string{e.issuer(h)}, kid, s.Keys[kid], now.Add(-5*time.Second), now.Add(5*time.Minute), nil)}
+}
+
+// warmUp: before an impersonation attempt the real sender authenticates legitimately as itself (an introspection of the
+// same token string, judged like any other introspection).
+func (e *env) warmUp(cl *vkit.ClientSpec, o Op, p presented, h int) {
+	s := e.impSender(cl, o.By)
+	e.res.Label("imp:"+s.ID+"-as-"+cl.AuthMethod, fmt.Sprintf("imp-warm:%v", o.Warm))
+	if p.tok != nil && p.tok.client == cl.ID {
+		e.res.Label("imp-names-owner")
+	}
+	if !o.Warm {
+		return
+	}
+	e.trace = append(e.trace, "warm-up:introspect(as="+s.ID+"/right)")
+	e.introspectP(Op{Kind: "introspect", Caller: s.ID, Cred: "right"}, p, h)
+}
+
 // authVerdict: is the caller authenticated as cl at this endpoint? +1 yes, -1 no, 0 grey (method support differs per
 // router and is another property's subject).
 func (e *env) authVerdict(endpoint string, cl *vkit.ClientSpec, kind string) int {
+	if kind == "imp" {
+		// somebody else's signature: the sender is another client, whatever method the named client is registered with
+		return -1
+	}
 	public := cl.AuthMethod == "none"
 	if public {
 		if endpoint == "revocation" {
@@ -919,6 +995,9 @@ func (e *env) introspect(o Op) {
 
 func (e *env) introspectP(o Op, p presented, h int) {
 	cl := e.caller(o.Caller, p)
+	if o.Cred == "imp" {
+		e.warmUp(cl, o, p, h)
+	}
 	auth := e.authVerdict("introspection", cl, o.Cred)
 	tv, why := e.readVerdict(p, h, true)
 	inAud := p.tok != nil && contains(p.tok.aud, cl.ID)
@@ -940,7 +1019,7 @@ func (e *env) introspectP(o Op, p presented, h int) {
 	e.useClass("introspect", p, v, why)
 	e.res.Label("introspect-as:" + cl.AuthMethod + ":" + o.Cred)
 	e.setFault("SetIntrospectionFromToken", o.Fault)
-	cred := spoofed(e.cred(cl, o.Cred, h), o.Spoof, cl, p)
+	cred := spoofed(e.credOp(cl, o, h), o.Spoof, cl, p)
 	if cred.BodyID != "" {
 		e.res.Label("introspect-spoofed-client_id")
 	}
@@ -1010,6 +1089,9 @@ func (e *env) revoke(o Op) {
 		}
 	}
 	cl := e.caller(o.Caller, p)
+	if o.Cred == "imp" {
+		e.warmUp(cl, o, p, 0)
+	}
 	auth := e.authVerdict("revocation", cl, o.Cred)
 	if cl.AuthMethod == "private_key_jwt" && o.Cred == "right" {
 		auth = 1 // both routers implement private_key_jwt at the revocation endpoint
@@ -1051,7 +1133,7 @@ func (e *env) revoke(o Op) {
 	if p.tok != nil && !p.tok.live() {
 		e.res.Label("revoke-of-dead")
 	}
-	cred := spoofed(e.cred(cl, o.Cred, 0), o.Spoof, cl, p)
+	cred := spoofed(e.credOp(cl, o, 0), o.Spoof, cl, p)
 	if cred.BodyID != "" {
 		e.res.Label("revoke-spoofed-client_id")
 	}
@@ -1203,6 +1285,9 @@ func (e *env) exchangeP(o Op, subj presented, actor *presented, h int) {
 	if !cl.HasGrant(vkit.GTE) {
 		cl = e.clients["ca"]
 	}
+	if o.Cred == "imp" {
+		e.warmUp(cl, o, subj, h)
+	}
 	auth := e.authVerdict("token", cl, o.Cred)
 	sv, swhy := e.readVerdict(subj, h, false)
 	av, awhy := 1, ""
@@ -1244,7 +1329,7 @@ func (e *env) exchangeP(o Op, subj presented, actor *presented, h int) {
 	case "refresh":
 		form.Set("requested_token_type", "urn:ietf:params:oauth:token-type:refresh_token")
 	}
-	resp := e.ags[h].Token(form, e.cred(cl, o.Cred, h))
+	resp := e.ags[h].Token(form, e.credOp(cl, o, h))
 	if e.panicked("exchange", resp) {
 		return
 	}
@@ -1348,12 +1433,18 @@ func run(c Case) (res *vkit.Result) {
 		cbMethod = "client_secret_post"
 	}
 	codeGrants := []string{vkit.GCode, vkit.GRefr, vkit.GTE}
+	k2kid := "kk"
+	if c.K2Kid != "" {
+		k2kid = c.K2Kid
+	}
 	clients := []*vkit.ClientSpec{
 		{ID: "ca", Secret: "secret-a", AppType: "web", AuthMethod: "client_secret_basic", GrantTypes: codeGrants, ResponseTypes: []string{"code"}, RedirectURIs: []string{redirectURI}, JWTAccessToken: jwt("ca")},
 		{ID: "cb", Secret: "secret-b", AppType: "web", AuthMethod: cbMethod, GrantTypes: codeGrants, ResponseTypes: []string{"code"}, RedirectURIs: []string{redirectURI}, JWTAccessToken: jwt("cb")},
 		{ID: "cp", AppType: "native", AuthMethod: "none", GrantTypes: []string{vkit.GCode, vkit.GRefr}, ResponseTypes: []string{"code"}, RedirectURIs: []string{redirectURI}, JWTAccessToken: jwt("cp")},
 		{ID: "ck", AppType: "web", AuthMethod: "private_key_jwt", GrantTypes: codeGrants, ResponseTypes: []string{"code"}, RedirectURIs: []string{redirectURI}, JWTAccessToken: jwt("ck"), Keys: map[string]string{"kk": "rsa3"}},
 		{ID: "svc", Secret: "secret-s", AppType: "web", AuthMethod: "client_secret_basic", GrantTypes: []string{vkit.GCC}, Service: true, JWTAccessToken: jwt("svc")},
+		// a second private_key_jwt client: another key, registered under the same kid as ck's (or under a kid of its own)
+		{ID: "ck2", AppType: "web", AuthMethod: "private_key_jwt", GrantTypes: codeGrants, ResponseTypes: []string{"code"}, RedirectURIs: []string{redirectURI}, JWTAccessToken: jwt("ck2"), Keys: map[string]string{k2kid: "rsa2"}},
 	}
 	pol := vkit.StorePolicy{ErrStyle: c.ErrStyle}
 	pol.TE.NoLivenessCheck = c.TELax
@@ -1409,7 +1500,7 @@ func run(c Case) (res *vkit.Result) {
 		e.sweep()
 	}
 
-	res.Label("router:"+c.Router, fmt.Sprintf("hosts:%v", c.Hosts), fmt.Sprintf("te-lax-storage:%v", c.TELax), "alg:"+alg)
+	res.Label("ck2-kid:"+k2kid, "router:"+c.Router, fmt.Sprintf("hosts:%v", c.Hosts), fmt.Sprintf("te-lax-storage:%v", c.TELax), "alg:"+alg)
 	if len(e.grants) == 0 {
 		res.Label("no-grants")
 	}
@@ -1449,11 +1540,21 @@ func (e *env) sweep() {
 			}
 			// ... and by a caller that names the token's client but cannot prove to be it (made-up secret, Basic / form)
 			e.introspectP(Op{Kind: "introspect", Caller: t.client, Cred: []string{"madeup-basic", "madeup-post"}[i%2]}, p, h)
+			// ... and by another registered private_key_jwt client that names the token's client in an assertion signed with its
+			// own key (after having authenticated as itself / without that)
+			e.introspectP(Op{Kind: "introspect", Caller: t.client, Cred: "imp", By: []string{"ck2", "ck"}[i%2], Warm: i%3 != 2}, p, h)
 		}
 		e.exchangeP(Op{Kind: "exchange", Caller: "ca", Cred: "right"}, p, nil, h)
 		e.checkState(Op{Kind: "sweep"})
 	}
 	e.res.Label("swept")
+}
+
+func imp(o Op) string {
+	if o.Cred != "imp" {
+		return ""
+	}
+	return fmt.Sprintf("[by=%s,warm=%v]", o.By, o.Warm)
 }
 
 func describe(o Op) string {
@@ -1473,9 +1574,9 @@ func describe(o Op) string {
 	case "userinfo":
 		return fmt.Sprintf("userinfo(%s,fault=%s,other=%v)", ref(o.Tok), o.Fault, o.Other)
 	case "introspect":
-		return fmt.Sprintf("introspect(%s,as=%s/%s,fault=%s,other=%v)", ref(o.Tok), o.Caller, o.Cred, o.Fault, o.Other)
+		return fmt.Sprintf("introspect(%s,as=%s/%s%s,fault=%s,other=%v)", ref(o.Tok), o.Caller, o.Cred, imp(o), o.Fault, o.Other)
 	case "revoke":
-		return fmt.Sprintf("revoke(%s,hint=%s,as=%s/%s)", ref(o.Tok), o.Hint, o.Caller, o.Cred)
+		return fmt.Sprintf("revoke(%s,hint=%s,as=%s/%s%s)", ref(o.Tok), o.Hint, o.Caller, o.Cred, imp(o))
 	case "end_session":
 		return fmt.Sprintf("end_session(g%d,%s)", o.Tok.Grant, o.ES)
 	case "expire":
@@ -1485,7 +1586,7 @@ func describe(o Op) string {
 		if o.Actor != nil {
 			a = ",actor=" + ref(*o.Actor)
 		}
-		return fmt.Sprintf("exchange(subject=%s%s,as=%s/%s,req=%s,other=%v)", ref(o.Tok), a, o.Caller, o.Cred, o.Req, o.Other)
+		return fmt.Sprintf("exchange(subject=%s%s,as=%s/%s%s,req=%s,other=%v)", ref(o.Tok), a, o.Caller, o.Cred, imp(o), o.Req, o.Other)
 	}
 	return o.Kind
 }
@@ -1493,10 +1594,11 @@ func describe(o Op) string {
 var prop = vkit.Prop[Case]{
 	ID: "C08",
 	Rule: "cases = provider (router x static/host-derived issuer x RS256/ES256 x AES key x per-client opaque/JWT access tokens x basic/post client x extra audience x extras capabilities x refresh-token ids equal to / different from the token string x (1/10) storage that skips the liveness check of exchange inputs = grey) " +
-		"x history of 4-31 symbolic ops (issue by 5 clients incl. public, private_key_jwt and client_credentials; userinfo header/form; introspect as owner/other/public client with right/wrong/no credentials or a made-up secret (Basic / form, also for the public and the private_key_jwt client, which have none); " +
+		"x history of 4-31 symbolic ops (issue by 6 clients incl. public, two private_key_jwt clients (different keys registered under the same kid, 1/4: under different kids) and client_credentials; userinfo header/form; introspect as owner/other/public client with right/wrong/no credentials or a made-up secret (Basic / form, also for the public and the private_key_jwt clients, which have none) " +
+		"or by impersonation (a client assertion naming the client as iss/sub but signed by the other private_key_jwt client with its own key and kid, 3/4 right after that sender authenticated legitimately as itself, 1/4 cold; also at revocation and exchange: never authenticated => never active:true, revocation and exchange refused); " +
 		"revoke with hint none/access_token/refresh_token/junk as owner/foreign/public/unauthenticated (incl. made-up secret); end_session by fresh or expired-but-validly-signed id_token_hint (with / without client_id) or client_id only; expire; token exchange with subject and optional actor) over genuine access and refresh tokens and 23 forging recipes " +
 		"(CFB bit flips, targeted malleation to a sibling token, re-sealing under the same / another key, unknown id, wrong subject, truncation, extension, JWT clone / untrusted key / no kid / expired / other issuer / alg none / HS256 with public key / signature flip / payload swap, raw garbage, storage faults error/partial); " +
-		"after 3 of 4 histories every token is presented once more at userinfo, introspection (by an authenticated audience member, and by its own client with a made-up secret) and exchange (sweep); oracle = per-token liveness (issued, not revoked, not expired, session not ended) + audience + authenticated caller, string denotation computed with crypto/aes; " +
+		"after 3 of 4 histories every token is presented once more at userinfo, introspection (by an authenticated audience member, by its own client with a made-up secret, and by a private_key_jwt client impersonating its client) and exchange (sweep); oracle = per-token liveness (issued, not revoked, not expired, session not ended) + audience + authenticated caller, string denotation computed with crypto/aes; " +
 		"non-trivial = the history uses a token after its revocation / logout / expiry, or presents a forged string derived from a live token; distinct = router + set of (endpoint, token kind, forging recipe, verdict, reason) of those uses",
 	Gen: genCase,
 	Run: run,
